@@ -84,6 +84,8 @@ func TestDrive(t *testing.T) {
 				d.planRandom(a, true)
 			case "extf":
 				d.planExtF(a)
+			case "remote":
+				d.planRemote(a)
 			default:
 				t.Fatalf("unknown plan %q", p)
 			}
@@ -341,6 +343,50 @@ func (d *driver) planExtF(count int) {
 		}
 		if d.rng.Intn(6) == 0 {
 			sc.Faults = []Fault{{"pred", 1 + d.rng.Intn(n), "before"}}
+		}
+		d.run(&sc)
+	}
+}
+
+// planRemote: a real remote.Repository (over the in-process registry) as source and / or destination of Copy and
+// CopyGraph, with blob mounting from the source repository (MountFrom / OnMounted), faults, callbacks and cancellation.
+func (d *driver) planRemote(count int) {
+	d.plan = "remote"
+	for i := 0; i < count; i++ {
+		n := 3 + d.rng.Intn(5)
+		succ := vh.RandomSucc(n, d.rng, 25+d.rng.Intn(30))
+		nodes := vh.ShapeFromSucc(succ, d.rng, vh.ShapeOpts{Subjects: true, Docker: true, Artifact: true, Dup: true})
+		g, err := vh.Build(nodes, "x")
+		if err != nil {
+			d.t.Fatal(err)
+		}
+		subsets := g.ClosedSubsets()
+		sc := Scenario{Nodes: nodes, Root: n, C: 1 + d.rng.Intn(4), Dst0: subsets[d.rng.Intn(len(subsets))], Seed: d.rng.Int63(), API: "copygraph"}
+		sc.SrcKind = []string{"remote", "remote", "remotetag", "memory", "oci"}[d.rng.Intn(5)]
+		sc.DstKind = []string{"remote", "remote", "remote", "memory"}[d.rng.Intn(4)]
+		if !strings.HasPrefix(sc.SrcKind, "remote") {
+			sc.DstKind = "remote"
+		}
+		if vh.IsManifestKind(nodes[n].Kind) && d.rng.Intn(2) == 0 {
+			sc.API = "copy"
+			if d.rng.Intn(2) == 0 {
+				sc.DstRef = "dstref"
+			}
+		}
+		if sc.DstKind == "remote" {
+			sc.Mount = d.rng.Intn(4)
+		}
+		switch d.rng.Intn(5) {
+		case 0:
+			ops := append([]Fault{{"mount", 0, "before"}}, faultOps...)
+			f := ops[d.rng.Intn(len(ops))]
+			f.Node = 1 + d.rng.Intn(n)
+			sc.Faults = []Fault{f}
+		case 1:
+			sc.CbErr = []Fault{{append([]string{"mounted"}, cbOps...)[d.rng.Intn(4)], 1 + d.rng.Intn(n), "cb"}}
+		case 2:
+			sc.Cancel = 1 + d.rng.Intn(3*n)
+			sc.CMode = []string{"before", "after"}[d.rng.Intn(2)]
 		}
 		d.run(&sc)
 	}
